@@ -24,6 +24,9 @@ pub enum LOp {
     Close(u32),
     /// Close an alive channel with this key, if any.
     CloseKey(u32),
+    /// A connection arrives, and an alive channel with the same key (if any) is closed from inside
+    /// the listener's own `poll_next`, just before it yields the new connection.
+    ArriveClosing(u32),
 }
 
 #[derive(Clone, Debug, Serialize, Deserialize)]
@@ -66,6 +69,7 @@ pub fn gen(rng: &mut Rng) -> ListenerScn {
                 b.push(match rng.below(3) {
                     0 => LOp::Close(rng.below(4) as u32),
                     1 => LOp::CloseKey(rng.below(keys as u64) as u32),
+                    2 if rng.chance(300) => LOp::ArriveClosing(rng.below(keys as u64) as u32),
                     _ => LOp::Arrive(rng.below(keys as u64) as u32),
                 });
             }
@@ -129,9 +133,12 @@ impl Sink<Response<u64>> for Keyed {
 
 type Chan = BaseChannel<u64, u64, Keyed>;
 
+type Tracked = tarpc::server::limits::channels_per_key::TrackedChannel<Chan, LKey>;
+type Alive = Rc<RefCell<Vec<(u32, u32, Tracked)>>>;
+
 #[derive(Default)]
 struct ListenerShared {
-    queue: VecDeque<Chan>,
+    queue: VecDeque<(Chan, bool)>,
     waker: Option<Waker>,
     closed: bool,
 }
@@ -139,15 +146,27 @@ struct ListenerShared {
 struct ScriptedListener {
     sh: Rc<RefCell<ListenerShared>>,
     sim: Rc<Sim>,
+    alive: Alive,
 }
 
 impl Stream for ScriptedListener {
     type Item = Chan;
     fn poll_next(self: Pin<&mut Self>, cx: &mut Context<'_>) -> Poll<Option<Chan>> {
         let mut sh = self.sh.borrow_mut();
-        if let Some(c) = sh.queue.pop_front() {
+        if let Some((c, close_first)) = sh.queue.pop_front() {
             let (serial, key) = (c.get_ref().serial, c.get_ref().key);
             drop(sh);
+            if close_first {
+                let victim = {
+                    let mut a = self.alive.borrow_mut();
+                    a.iter().position(|x| x.1 == key).map(|ix| a.remove(ix))
+                };
+                if let Some((s, k, ch)) = victim {
+                    self.sim.log(EvKind::Note { what: "close", a: s as i64, b: k as i64 });
+                    self.sim.count("fault.channel_closed_inside_listener_poll");
+                    drop(ch);
+                }
+            }
             self.sim.log(EvKind::Note { what: "take", a: serial as i64, b: key as i64 });
             return Poll::Ready(Some(c));
         }
@@ -169,11 +188,10 @@ pub fn run(scn: &ListenerScn, tape: Tape) -> RunOutput {
         |sim| {
             let scn = scn2;
             let sh = Rc::new(RefCell::new(ListenerShared::default()));
-            let listener = ScriptedListener { sh: sh.clone(), sim: sim.clone() };
-            let limited = listener.max_channels_per_key(scn.n, |c: &Chan| LKey(c.get_ref().key));
             // admitted & alive channels: (serial, key, channel)
-            type Tracked = tarpc::server::limits::channels_per_key::TrackedChannel<Chan, LKey>;
-            let alive: Rc<RefCell<Vec<(u32, u32, Tracked)>>> = Rc::new(RefCell::new(Vec::new()));
+            let alive: Alive = Rc::new(RefCell::new(Vec::new()));
+            let listener = ScriptedListener { sh: sh.clone(), sim: sim.clone(), alive: alive.clone() };
+            let limited = listener.max_channels_per_key(scn.n, |c: &Chan| LKey(c.get_ref().key));
             let (sim_l, alive_l) = (sim.clone(), alive.clone());
             let lt = sim.spawn("listener", async move {
                 let mut limited = Box::pin(limited);
@@ -192,13 +210,13 @@ pub fn run(scn: &ListenerScn, tape: Tape) -> RunOutput {
                 for b in scn.batches.iter() {
                     for op in b {
                         match op {
-                            LOp::Arrive(k) => {
+                            LOp::Arrive(k) | LOp::ArriveClosing(k) => {
                                 serial += 1;
                                 sim_d.log(EvKind::Note { what: "arrive", a: serial as i64, b: *k as i64 });
                                 let t = Keyed { key: *k, serial, sim: sim_d.clone() };
                                 let w = {
                                     let mut s = sh_d.borrow_mut();
-                                    s.queue.push_back(BaseChannel::with_defaults(t));
+                                    s.queue.push_back((BaseChannel::with_defaults(t), matches!(op, LOp::ArriveClosing(_))));
                                     s.waker.take()
                                 };
                                 if let Some(w) = w {
